@@ -284,6 +284,27 @@ def c2s_records(rng, n):
                 printed = str(bv)
                 again = pevs(BeatValues.from_str(printed))
                 add({"t": "events", "text": cps(text), "st": "ok", "evs": evs, "printed": cps(printed), "again": again})
+                if len(bv) and rng.random() < 0.5:
+                    # the SAME list object, written once already, then changed through one of the list's own methods and
+                    # written again: the text is always the text of the list as it is now
+                    how = rng.randrange(6)
+                    if how == 0:
+                        bv += [bv[0]]
+                    elif how == 1:
+                        bv.reverse()
+                    elif how == 2:
+                        bv.sort(key=lambda e: (e.value, e.beat))
+                    elif how == 3:
+                        bv *= 2
+                    elif how == 4:
+                        bv.data.pop()
+                    else:
+                        bv.append(bv[-1])
+                    evs2 = pevs(bv)
+                    printed2 = str(bv)
+                    if evs2 is not None:
+                        add({"t": "events", "text": cps(printed2), "st": "ok", "evs": evs2, "printed": cps(printed2),
+                             "again": pevs(BeatValues.from_str(printed2))})
             except Exception as e:  # noqa
                 add({"t": "events", "text": cps(text), "st": type(e).__name__, "evs": [], "printed": [], "again": []})
     return recs
